@@ -20,6 +20,7 @@ import ButlerModel.Driver.C05
 import ButlerModel.Driver.C06
 import ButlerModel.Driver.C17r
 import ButlerModel.Driver.C06s
+import ButlerModel.Driver.C13f
 /-! Line-protocol driver: one request per line on stdin, one reply per line on stdout.
 The first token selects the model; stateful models keep their state in `DState`. -/
 
@@ -37,6 +38,7 @@ structure DState where
   xfer : Transfer.Repo := {}
   rc : RegCache.S := {}
   sp : Driver.C06s.St := {}
+  fr : Driver.C13f.St := {}
 
 def step (st : DState) (line : String) : DState × String :=
   let toks := (line.splitOn " ").filter (· ≠ "")
@@ -60,6 +62,7 @@ def step (st : DState) (line : String) : DState × String :=
   | "path" :: rest => (st, Driver.C09.handlePath rest)
   | "rc" :: rest => let (c, out) := Driver.C17r.handle st.rc rest; ({ st with rc := c }, out)
   | "sp" :: rest => let (c, out) := Driver.C06s.handle st.sp rest; ({ st with sp := c }, out)
+  | "fr" :: rest => let (c, out) := Driver.C13f.handle st.fr rest; ({ st with fr := c }, out)
   | "xfer" :: rest => let (c, out) := Driver.C19.handle st.xfer rest; ({ st with xfer := c }, out)
   | "crash" :: rest => let (c, out) := Driver.C08.handle st.crash rest; ({ st with crash := c }, out)
   | "st" :: rest => let (c, out) := Driver.C01.handle st.store rest; ({ st with store := c }, out)
